@@ -267,7 +267,7 @@ structure PartCfg where
   haloF : String → Nat               -- its post-halo
 
 def convAcc (c : PartCfg) (a : AccA) : AccA := { e := renameVar c.q c.q0 a.e, proj := a.proj, ivl := a.ivl }
-def upAcc (c : PartCfg) (a : AccA) : AccA := { e := ⟨[(a.e.coef c.q, c.q1)], 0⟩, proj := true, ivl := false }
+def upAcc (c : PartCfg) (a : AccA) : AccA := { e := ⟨[(a.e.coef c.q, c.q1)], 0⟩, proj := isProjE a.e, ivl := false }
 def loAcc (c : PartCfg) (a : AccA) : AccA := { e := renameVar c.q c.q0 a.e, proj := isProjE (renameVar c.q c.q0 a.e) }
 
 def convIdx (c : PartCfg) (i : Nat) (idx : List AccA) : List AccA :=
